@@ -30,6 +30,7 @@ type Run struct {
 	WallS                   float64
 	Fatal                   string
 	violations              []string
+	engineErrors            []string
 	known                   []string
 	proved                  int
 	claimed                 int
@@ -117,6 +118,13 @@ func (r *Run) Report() int {
 			}
 			r.claimed++
 			path := r.writeReplay(o, outDir)
+			if o.Status == "error" {
+				// every solver rejected the query text: the machinery failed, the code was not judged.
+				// Reported as a broken run (exit 2), never as a violation of the property.
+				fmt.Printf("  ENGINE-ERROR %s: malformed query, undecided (solver output in %s)\n", o.ID, path)
+				r.engineErrors = append(r.engineErrors, o.ID)
+				continue
+			}
 			confirmed := false
 			if o.Status == "refuted" {
 				confirmed = r.tryReplay(o, path)
@@ -179,6 +187,10 @@ func (r *Run) Report() int {
 	}
 	if len(r.violations) > 0 {
 		return 1
+	}
+	if len(r.engineErrors) > 0 {
+		fmt.Printf("ERROR: %d obligations could not be put to a solver (engine error); the property is undecided on this tree\n", len(r.engineErrors))
+		return 2
 	}
 	if r.proved == 0 {
 		fmt.Println("ERROR: no obligation was discharged (vacuous run)")
@@ -448,6 +460,9 @@ func (r *Run) WriteEvidence() error {
 	}
 	if r.Fatal != "" {
 		cov["fatal"] = r.Fatal
+	}
+	if len(r.engineErrors) > 0 {
+		cov["engine_errors"] = r.engineErrors
 	}
 	ev := map[string]any{
 		"property_id": r.Prop,
